@@ -53,9 +53,18 @@ pub struct AlFlags {
     pub posix_escapes: Option<bool>,
     pub allow_wholeline_comments: Option<bool>,
     pub case_insensitive: Option<bool>,
+    #[serde(default)]
+    pub swap_greed: Option<bool>,
+    /// only ever set for specifications whose expressions contain no blank and no '#', where
+    /// the flag must not change anything
+    #[serde(default)]
+    pub ignore_whitespace: Option<bool>,
 }
 
 impl AlFlags {
+    pub fn eff_swap_greed(&self) -> bool {
+        self.swap_greed.unwrap_or(false)
+    }
     pub fn eff_dot_nl(&self) -> bool {
         self.dot_matches_new_line.unwrap_or(true)
     }
@@ -93,6 +102,12 @@ impl AlFlags {
         }
         if let Some(b) = self.case_insensitive {
             v.push(("case_insensitive", b));
+        }
+        if let Some(b) = self.swap_greed {
+            v.push(("swap_greed", b));
+        }
+        if let Some(b) = self.ignore_whitespace {
+            v.push(("ignore_whitespace", b));
         }
         v
     }
@@ -397,6 +412,8 @@ pub fn gen_al(ch: &mut Choices, max_rules: usize) -> AL {
     al.flags.posix_escapes = pick_flag(ch);
     al.flags.allow_wholeline_comments = pick_flag(ch);
     al.flags.case_insensitive = pick_flag(ch);
+    al.flags.swap_greed = pick_flag(ch);
+    let want_ignore_ws = pick_flag(ch);
     let ns = ch.weighted(&[3, 3, 2, 1]);
     // names that overlap with each other and with the directive words (%s, %x, %start, ...)
     let mut names = vec!["S1", "x2", "St.a_3", "Q", "s", "x", "S", "X", "t", "art", "tart", "a", "state", "xx", "e", "xc"];
@@ -448,6 +465,10 @@ pub fn gen_al(ch: &mut Choices, max_rules: usize) -> AL {
             name,
             target,
         });
+    }
+    // x-mode: only where it is a no-op on the expressions (no blank, no '#')
+    if al.rules.iter().all(|r| !r.re.reference(&al.flags).contains(|c: char| c.is_whitespace() || c == '#')) {
+        al.flags.ignore_whitespace = want_ignore_ws;
     }
     al
 }
